@@ -3,6 +3,8 @@
 Tie class T: the Lean model (lean/NiftyVerif/Model/Likelihood.lean, evaluated in `Float` by Driver/C11.lean) is compared with
 value / gradient / dense metric / transformation value / dense transformation Jacobian obtained from the real
 `Linearization.make_var(x, want_metric=True)` pushed through the real energy (within 1e-9 relative).
+Round 2 (design.d/C11.md): complex models in front of every energy (_c11_cplx.py) and all metric mechanisms cross-checked
+(apply / get_metric_at / JᴴJ of the transformation / assembled from the parts / independent Fisher; symmetric, PSD, Hermitian).
 Oracle (real code only): gradient vs. 4th-order central differences of the value; metric vs. JᴴJ of
 `get_transformation()`; metric vs. an independent Fisher information (closed forms validated against scipy.stats,
 pulled back analytically through the generated model functions); E(x1)-E(x2) vs. scipy.stats log-pdf differences;
@@ -35,7 +37,11 @@ except Exception:      # pragma: no cover
 RULE = ("random operator trees over the classic likelihood energies (Gaussian none/scaling/diagonal/sandwich inverse covariance, "
         "real/complex, with/without data; Poisson; Bernoulli; categorical; Student-t; inverse gamma; variable-covariance Gaussian "
         "real/complex, full Fisher or not; _SpecialGammaEnergy) wrapped by scaling, sums over shared/separate keys, point-wise and "
-        "matrix models (incl. a dense model from a single domain into the variable-covariance keys) and StandardHamiltonian, on RGSpace 1d/2d and UnstructuredDomain; positions generated inside each "
+        "matrix models (incl. a dense model from a single domain into the variable-covariance keys) and StandardHamiltonian, on RGSpace 1d/2d and UnstructuredDomain; "
+        "round 2: typed chains of complex models (complex/imaginary/negative ScalingOperator, complex DiagonalOperator, dense complex matrix, "
+        "FFT/Hartley/HarmonicTransform, Realizer/complexifier/Imaginizer/conjugation, holomorphic point-wise functions) in front of every energy "
+        "(complex Gaussian incl. complex-bun sandwich covariance, complex variable-covariance Gaussian, every real energy behind R->C->R chains), "
+        "single-operator Jacobians of every kind forced in every run, models over whole sums, scaled / summed / Hamiltonian-wrapped; positions generated inside each "
         "parameter range; non-trivial = every case (dimension >= 1); distinct by canonical JSON of the case")
 TRUSTED_BASE = [
     "Lean 4.33 kernel; axioms propext/Classical.choice/Quot.sound only (audited every run)",
@@ -516,10 +522,10 @@ def run(ctx):
         cases.append(G.gen_case(ctx.rng, small=ctx.quick))
     # round 2: complex data and complex models in front of every energy (forced single-operator Jacobians, then random chains)
     for f in C.FORCED:
-        for _ in range(ctx.n(1, 4)):
+        for _ in range(ctx.n(1, 3)):
             cases.append(C.gen_ccase(ctx.rng, small=True, force=f))
             ctx.stat("cmodel:forced")
-    for _ in range(ctx.n(60, 900)):
+    for _ in range(ctx.n(60, 600)):
         cases.append(C.gen_ccase(ctx.rng, small=ctx.quick))
     B = 100
     with contextlib.redirect_stdout(io.StringIO()):
